@@ -109,6 +109,7 @@ def run_shard(spec, seed, tier, stats):
         prev = None
         for d in list(range(spec['lo'], spec['hi'] + 1)) + ([None] + list(range(spec['hi'], spec['lo'] - 1, -7)) if spec.get('again', True) else []):
             if d is None:        # second, descending strided pass over the same range: answers must not depend on earlier calls
+                be.stir(seed)    # ... nor on unrelated library activity in between
                 prev = None
                 stats = None
                 continue
